@@ -21,6 +21,8 @@ import sys
 import threading
 import zlib
 
+from . import coop
+
 # VERIF_REPO: root of the repository under test (default /repo); only the self-tests override it
 REPO_ROOT = os.path.realpath(os.environ.get("VERIF_REPO", "/repo"))
 SRC_PREFIX = os.path.join(REPO_ROOT, "src", "pendulum") + os.sep
@@ -435,8 +437,28 @@ class Scheduler:
         return x
 
     # ------------------------------------------------------------------- run
+    def blocked_yield(self, a: Actor):
+        """``a`` found a lock of the code under test held by a parked actor: run somebody else."""
+        others = [x for x in self.actors if x.alive and not x.waiting and x is not a]
+        if not others:
+            raise HarnessError("actor %s blocks on a lock no runnable actor can release (deadlock in the code under test "
+                               "or a lock held across a barrier)" % a.name)
+        a.k += 1
+        self.nsteps += 1
+        if self.nsteps > self.step_cap * 4:
+            raise HarnessError("lock contention did not resolve")
+        if self.kind == "explicit":
+            t = self._exp.get((a.name, a.k))
+            tgt = self.by_name.get(t) if t else None
+            if tgt is None or tgt not in others:
+                tgt = others[0]
+        else:
+            tgt = others[self.rng.randrange(len(others))]
+        self._switch(a, tgt)
+
     def _thread_main(self, a: Actor):
         a.sem.acquire()
+        coop.ACTORS[threading.get_ident()] = (self, a)
         if self.gran == "line":
             sys.settrace(a.gtrace)
         else:
@@ -450,6 +472,7 @@ class Scheduler:
                 sys.settrace(None)
             else:
                 MONITOR.detach(threading.get_ident())
+            coop.ACTORS.pop(threading.get_ident(), None)
             a.alive = False
             a.waiting = False
             r = self._runnable()
